@@ -32,7 +32,7 @@ func init() {
 		Bounds:      map[string]any{"quick": "≤ 3 attempts (single commands and batches), ≤ 4 hops (cluster), k ≤ 2 and r ≤ 4 (cluster batches)", "thorough": "≤ 4 attempts, ≤ 5 hops"},
 		specs: func(tier string) []specRef {
 			return []specRef{hsx(rootPkg, "VerifC28_single", P{"max_attempts": q(tier, int64(3), 4)}, 3000000, 3000, "retried", "returned"),
-				hsx(rootPkg, "VerifC28_multi", P{"max_attempts": q(tier, int64(3), 4)}, 3000000, 3000, "retried", "dropped", "returned"),
+				hsx(rootPkg, "VerifC28_multi", P{"max_attempts": q(tier, int64(3), 4)}, 3000000, 3000, "retried", "dropped", "loading", "dedicated", "returned"),
 				clusterRetry(), redirect(tier)}
 		},
 	}
